@@ -179,6 +179,50 @@ def check_table_receivers(chk, tus, rule):
                            'wasmCWrite%sFunction:table-receiver' % ('Instantiate' if entry == 'modInstantiate' else 'NewChild'))
 
 
+def grow_clears_shared_tail(htu):
+    """-> (True, n) when every successful path of wasmMemoryGrow on a shared memory that has storage clears the added pages with
+    memset(data + pages*65536, 0, delta*65536) before it publishes the new page count; (False, reason) otherwise"""
+    from .. import runtime, pe
+    from ..pe import unk, Ptr, is_sym
+    delta = unk('delta', 'unsigned int')
+    pages = unk('pages', 'unsigned int')
+
+    def mk(it):
+        mem = {'v': runtime.memory_record(it, shared=1)}
+        return [Ptr(mem, 'v'), delta], {'mem': mem['v']}
+    try:
+        paths = runtime.summarize(htu, 'wasmMemoryGrow', mk)
+    except pe.PEError as e:
+        return False, 'wasmMemoryGrow cannot be summarised (%s)' % e
+
+    def times_page(a, what):
+        a = pe.strip_casts(a)
+        return is_sym(a) and a.op == '*' and what in [pe.strip_casts(x) for x in a.args] and 65536 in a.args
+    n = 0
+    for p in paths:
+        if p.aborted:
+            continue
+        wp = [i for i, e in enumerate(p.events) if e[0] == 'write' and e[1][1] == 'pages']
+        if not wp:
+            continue
+        if pe.has_relation(pe.relations(p), '==', lambda x: repr(pe.strip_casts(x)) == '$data', lambda y: y == 0):
+            continue            # no storage at all on this path
+        good = False
+        for i, e in enumerate(p.events):
+            if e[0] == 'memset' and len(e[1]) >= 3 and i < wp[0]:
+                ptr, val, cnt = e[1][:3]
+                if val == 0 and times_page(cnt, delta) and is_sym(ptr) and ptr.op == '+' and \
+                        any(repr(pe.strip_casts(a)) == '$data' for a in ptr.args) and any(times_page(a, pages) for a in ptr.args):
+                    good = True
+        if not good:
+            return False, 'the shared grow path [%s] stores the new page count without having cleared the added pages (memsets: %r)' % (
+                p.cond_text()[:160], [e[1] for e in p.events if e[0] == 'memset'])
+        n += 1
+    if not n:
+        return False, 'wasmMemoryGrow has no successful path on a shared memory'
+    return True, n
+
+
 def check_allocators(chk, rule='R06.7', only_shared_clause=False):
     """R06.7: the runtime allocators called by the emitted initialisers create memories and tables of the declared minimum size,
     zero-filled: wasmMemoryAllocate(initial, max, shared) and wasmTableAllocate(table, size, max) are partially evaluated with
@@ -247,10 +291,16 @@ def check_allocators(chk, rule='R06.7', only_shared_clause=False):
                     continue        # the allocation failed on this path: nothing to clear
                 sets = [_a for n2, _a, _l in p.events if n2 in ('extern:memset', 'memset') and len(_a) >= 3]
                 zero = any(_a[1] == 0 and repr(pe.strip_casts(_a[2])) == repr(asked) for _a in sets)
+                lazily = ''
+                if not zero and shared and any(_a[1] == 0 and is_bytes(_a[2], ini) and repr(_a[0]).endswith('.data') for _a in sets):
+                    # only the pages in use are cleared: fine exactly when memory.grow clears every page it adds before it becomes visible
+                    zero, lazily = grow_clears_shared_tail(htu)
+                    lazily = '; the initial pages are cleared and memory.grow on a shared memory: %s' % (lazily,)
                 chk.expect(zero, rule, inst + ':zeroed',
                            'linear memory is obtained with %s(%r) and %s: every byte of a new memory - for a shared memory also the pages reserved for '
                            'later grows, which memory.grow does not clear - must read as zero'
-                           % (nm, a[-1] if a else None, ('cleared only by %r' % [(x[1], x[2]) for x in sets]) if sets else 'not cleared'), site + ':zeroed')
+                           % (nm, a[-1] if a else None, (('cleared only by %r' % [(x[1], x[2]) for x in sets]) if sets else 'not cleared') + lazily),
+                           site + ':zeroed')
                 continue
             aa = [pe.strip_casts(x) for x in a]
             total_ok = bool(cover) and ((is_bytes(aa[0], cover[0]) and aa[1] == 1) or (aa[0] == 1 and is_bytes(aa[1], cover[0])) or
